@@ -65,6 +65,23 @@ theorem some_option_silent :
       = true := by
   decide +kernel
 
+def pairLoud (known : List (Nat × Opt)) (e : OptPair) : Bool :=
+  !e.relevant || decide (e.disp ≠ .accepted) || known.contains e.key
+
+theorem options_pairs_tbl :
+    Generated.optionPairChunks.all (fun c => c.all (pairLoud Generated.knownSilent)) = true := by
+  decide +kernel
+
+theorem options_pairs (e : OptPair) (he : e ∈ Generated.optionPairs) (h2 : e.relevant = true)
+    (h3 : e.disp = .accepted) : e.key ∈ Generated.knownSilent := by
+  have := List.all_eq_true.mp (chunks_all _ _ options_pairs_tbl) e he
+  simpa [pairLoud, h2, h3] using this
+
+theorem some_pair_rejected :
+    Generated.optionPairs.any (fun e => e.relevant && e.aOptedOut &&
+      decide (e.disp = .raisesNotImplemented)) = true := by
+  decide +kernel
+
 def optIff (ks ko : List (Nat × Opt)) (e : OptEntry) : Bool :=
   !e.option.ignorable || decide (e.disp = .raisesOther) || ks.contains e.key ||
     ko.contains e.key || (decide (e.disp = .accepted) == e.optedOut)
